@@ -33,9 +33,12 @@ def reset_process_globals():
 
         copyreg.dispatch_table.pop(types.ModuleType, None)
         inst = _modules_copyable.__dict__.get("__instance__")
-        if inst is not None:
-            inst.refcount = 0
-            inst.patched_table = False
+        if inst is None:
+            # every run starts with the copy-protection singleton in place (a thread-mode run may have left the
+            # process without one; building it costs the first copy of the next run five extra line events)
+            inst = _modules_copyable()
+        inst.refcount = 0
+        inst.patched_table = False
     except Exception:  # pragma: no cover
         pass
 
